@@ -138,7 +138,10 @@ where
         let res: &mut LWE<&mut [u8]> = &mut res.to_mut();
         let other: &LWECompressed<&[u8]> = &other.to_ref();
 
-        assert_eq!(res.lwe_layout(), other.lwe_layout());
+        // an LWECompressed holds only the body (a one-coefficient vector): its ring degree says nothing about the LWE dimension,
+        // which is the receiver's; radix and precision must agree
+        assert_eq!(res.base2k(), other.base2k());
+        assert_eq!(res.size(), other.size());
 
         let mut source: Source = Source::new(other.seed);
         self.vec_znx_fill_uniform(other.base2k().into(), &mut res.data, 0, &mut source);
